@@ -3,7 +3,7 @@ import os, re, tempfile
 from lib import script, common
 from lib.common import Broken
 
-THEOREMS = ["C18_transparent", "C18_transparent_histories", "C18_no_logger_no_lines"]
+THEOREMS = ["C18_transparent", "C18_transparent_histories", "C18_no_logger_no_lines", "C18_one_line"]
 STRIPL = re.compile(r" (L|RP|ALTERED)=\S+")
 
 
@@ -23,7 +23,7 @@ def run(res, args):
     obs = {}
     for cfg in range(4):
         lines = [re.sub(r" cfg=\d", " cfg=%d" % cfg, l) for l in base]
-        impl, model, jout = script.run_lines(lines, "cfg%d" % cfg)
+        impl, model, jout = script.run_lines(lines, "cfg%d" % cfg, with_model=False)
         obs[cfg] = impl
         for l in jout.splitlines():
             if l.startswith("JUDGE-FAIL C18 "):
